@@ -23,13 +23,25 @@ global cell G[0], number of decisions consumed).
 Program space (own pure generator on top of progen.skeletons / progen.HEADER):
   if / elif / else, while (fuel bounded), for over range / list / slice / tuple targets, break / continue /
   return at any depth, try/finally and `with` wrappers (pure), nesting to depth 4, nested defs: pure closures
-  (read enclosing variables, own locals, own control flow) anywhere, `nonlocal`-mutating closures only called
-  outside the enclosing function's control flow and before its first `return` (limitations.md: "modifications
-  are not detected across functions"; code after a return is a lowered guard body), attribute / constant-key state o.v, d['k'], a[0], a[1], G[0] on attributes / keys that exist
-  before the statement ("fixed structure").  Loop targets are private to their loop (D1 is kept out of the
-  default space and covered by an explicit witness of kind `known-D1`).  Variables first assigned inside
-  control flow are read either inside the same block or after an if/else that assigns them in both jump-free
-  branches (limitations.md "Undefined and None values").
+  (read enclosing variables, own locals, own control flow) defined and called anywhere (also deferred),
+  `nonlocal`-mutating closures only called outside the enclosing function's control flow and before its first
+  `return` (limitations.md: "modifications are not detected across functions"; code after a return is a
+  lowered guard body), attribute / constant-key state o.v, d['k'], a[0], a[1], G[0] on attributes / keys that
+  exist before the statement ("fixed structure").  Variables first assigned inside control flow are read
+  either inside the same block or right after an if/else that assigns them in both jump-free branches
+  (limitations.md "Undefined and None values").  raise/except is excluded (not total when both branches run).
+
+Kept OUT of the default space by construction and covered by explicit witnesses (WITNESSES below), each
+reported with its own stable kind:sig as long as it fails:
+  known-D1              for-loop target that is also assigned before the loop and read after it (loop targets
+                        are private to their loop in the default space);
+  nouts-nonlocal        a conditional that reads and updates a nonlocal / global name that is not read later in
+                        the same function gets the name as a non-output (mutating closures have no early
+                        return and end in a read of every nonlocal name; no `global` statements);
+  global-not-state      write-only global in a branch;
+  getter-unbound-local  get_state() raises NameError for a block-local variable that has a reaching definition
+                        from before the block (cannot be excluded syntactically: random hits are classified
+                        under the same kind:sig as the witness).
 
 usage: c02_functional.py <seed> <tier> [--k K] [--random N] [--maxlen L] [--no-oob] [--dump IDX]
 """
@@ -254,9 +266,14 @@ def observe(fn, mod, bits, functional, a0=(5, 7)):
   except RecursionError:
     outcome = ('raise', 'RecursionError')
   except Exception as e:
-    tb = traceback.extract_tb(e.__traceback__)
-    where = [fr.name for fr in tb][-4:]
-    outcome = ('raise', '%s: %s' % (type(e).__name__, str(e)[:200]), where)
+    where = [fr.name for fr in traceback.extract_tb(e.__traceback__)][-4:]
+    # the first exception of the chain (a `finally` block of the program may have replaced it)
+    first = e
+    while first.__context__ is not None:
+      first = first.__context__
+    fwhere = [fr.name for fr in traceback.extract_tb(first.__traceback__)][-1:]
+    outcome = ('raise', '%s: %s' % (type(e).__name__, str(e)[:200]), where,
+               '%s: %s' % (type(first).__name__, str(first)[:120]), fwhere)
   finally:
     Ctx.c = None
   return dict(outcome=outcome, a=repr(a), G=mod.G[0], used=c.i, ops=Ctx.ops)
@@ -759,7 +776,7 @@ def _classify(o1, o2):
   """(kind, sig): short stable class of a difference"""
   out = o2['outcome']
   if out[0] == 'raise':
-    if out[1].startswith('NameError: cannot access free variable') and out[2] and out[2][-1].startswith('get_state'):
+    if out[3].startswith('NameError: cannot access free variable') and out[4] and out[4][-1].startswith('get_state'):
       return GETTER_KIND, GETTER_SIG       # same class as the explicit witness
     return 'functional-difference', 'raise-' + out[1].split(':')[0]
   if o1['outcome'] != out:
